@@ -15,6 +15,10 @@ CLAIMED = {
                 "through convert_type_fundamental_or_array, and store/load/UNSAFE_sandboxed through the wrappers on an LP32 model backend: "
                 "abort iff unrepresentable, else value preserved - for all source values (no sampling).",
             "bool destination and float/enum are outside the claim.", "DESIGN.md 4/C06"),
+    "C05": (MC, "p+n, p-n, +=, -=, ++/-- (pre/post), p[n], &p[n] for 8 pointee types x integer index types (plain, tainted, tainted_volatile) on LP32/LP16 "
+                "model backends with symbolic region base, pointer and full-width index: returns iff the exact 128-bit address p+/-n*s_guest is inside "
+                "the region and then returns exactly it, else aborts; null aborts.",
+            "Pointee/index families are the listed ones; guest strides computed independently in the spec.", "DESIGN.md 4/C05"),
 }
 
 NOT_APPLICABLE = {
